@@ -315,6 +315,85 @@ def dumpRecords (records : List RecSpec) (results : List ModDict) (h : Handle) (
         let w := emit h d (docRecords recs)
         ⟨c.trace ++ w.1, Option.none, w.2⟩
 
+/-! ### text → bytes: the codec of the file object -/
+
+/-- the codec a text file object encodes with: the one named in `open(..., encoding=…)`, or — when
+    none is named — the interpreter's default, which follows the locale (ASCII under `LC_ALL=C`
+    without UTF-8 mode) -/
+inductive Codec where
+  | utf8
+  | latin1
+  | ascii
+deriving Repr, Inhabited, DecidableEq
+
+def Codec.canEncode : Codec → Char → Bool
+  | .utf8, _ => true            -- every `Char` (surrogates are not `Char`s, and orjson has rejected them)
+  | .latin1, c => decide (c.toNat < 256)
+  | .ascii, c => decide (c.toNat < 128)
+
+/-- the characters a token contributes to the document text -/
+def Tok.chars : Tok → List Char
+  | .raw s => s.toList
+  | .str s => s.toList
+  | .key s => s.toList
+  | _ => []
+
+/-- `text.encode(codec)` succeeds -/
+def encodable (c : Codec) (text : Bytes) : Bool := text.all fun t => t.chars.all c.canEncode
+
+/-- the process environment as far as writing is concerned -/
+structure Env where
+  /-- `locale.getencoding()`: what `open(path, "w")` *without* `encoding=` would use -/
+  localeCodec : Codec
+deriving Repr, Inhabited, DecidableEq
+
+/-- `open(handle, "w", encoding="utf-8")`: both `write_to_file` and `dump_records` name the codec,
+    so the environment is not consulted -/
+def fileCodec (_env : Env) : Codec := .utf8
+
+/-- `handle = open(path, "w", encoding=c)`; `handle.write(text)`: the file is truncated by `open`, the
+    text is encoded by the file object's codec inside `write` — **after** the truncation.  An
+    unencodable character raises `UnicodeEncodeError` there and leaves the file empty.  (A stream
+    passed in by the caller brings its own codec; it is taken to accept the text.) -/
+def emitWith (c : Codec) (h : Handle) (d : Dir) (text : Bytes) : List Ev × Dir × Option Exn :=
+  match h with
+  | .path n =>
+    if encodable c text then ([.openW n, .write n], (d.openW n).append n text, Option.none)
+    else ([.openW n, .write n], d.openW n, some "UnicodeEncodeError")
+  | .io n => ([.write n], d.append n text, Option.none)
+  | .absent => ([], d, Option.none)
+
+/-- `write_to_file` in an environment: as `writeToFile`, with the last step spelled out -/
+def writeToFileIn (env : Env) (r : Results) (h : Handle) (d : Dir) : Out :=
+  let c := convertRecords 0 r.records r.results
+  match c.out with
+  | .error e =>
+    if e == typeError then ⟨c.trace ++ [.logErr], some typeError, d⟩ else ⟨c.trace, some e, d⟩
+  | .ok mods =>
+    match encodeRecords mods with
+    | Option.none => ⟨c.trace ++ [.logErr], some typeError, d⟩
+    | some recs =>
+      match encode r.timings with
+      | Option.none => ⟨c.trace ++ [.logErr], some typeError, d⟩
+      | some t =>
+        let w := emitWith (fileCodec env) h d (docFull recs t)
+        ⟨c.trace ++ w.1, w.2.2, w.2.1⟩
+
+/-- `dump_records` in an environment -/
+def dumpRecordsIn (env : Env) (records : List RecSpec) (results : List ModDict) (h : Handle) (d : Dir) : Out :=
+  let c := convertRecords 0 records results
+  match c.out with
+  | .error e => ⟨c.trace, some e, d⟩
+  | .ok mods =>
+    match h with
+    | .absent => ⟨c.trace, Option.none, d⟩
+    | _ =>
+      match encodeRecords mods with
+      | Option.none => ⟨c.trace ++ [.logErr], some typeError, d⟩
+      | some recs =>
+        let w := emitWith (fileCodec env) h d (docRecords recs)
+        ⟨c.trace ++ w.1, w.2.2, w.2.1⟩
+
 /-! ### the output directory -/
 
 /-- what is found at the output directory's path -/
